@@ -8,7 +8,7 @@ From QSX Require Import Fac.Gauss Fac.Basis Fac.Factor.
 From QSX Require Import IO.Num IO.Equiv IO.Bounds IO.Bas IO.Sol.
 From QSX Require Import Store.Spec Store.Api.
 (* one Require line per area may be added below *)
-From QSX Require Import IO.LpWrite IO.LpRead IO.MpsWrite IO.LpRoundtrip.
+From QSX Require Import IO.LpWrite IO.LpRead IO.MpsWrite IO.LpRoundtrip IO.LpNames.
 
 Extraction Language OCaml.
 Extraction "model.ml"
@@ -28,5 +28,5 @@ Extraction "model.ml"
   sstep pstep dump_lines to_ulp empty_prob valid_args get_h
   api_init api_edit api_solve api_load_basis api_exact_cert
   (* add names below, one line per area *)
-  write_lp file_bytes read_lp_res split_lines to_nlp write_mps wf_lpb
+  write_lp file_bytes read_lp_res split_lines to_nlp write_mps wf_lpb fix_names default_objname
   .
